@@ -24,37 +24,62 @@ REPLAY = common.REPLAY_HEADER + '''
 common.use_repo_with_build()
 import numpy as np
 from pysph.base.utils import get_particle_array
-from pysph.base.nnps import LinkedListNNPS
+from pysph.base.nnps import LinkedListNNPS, SpatialHashNNPS, ExtendedSpatialHashNNPS
 from cyarray.carray import UIntArray
 dim, arrays, rs = %(dim)d, %(arrays)r, %(rs)r
-pas = [get_particle_array(name="a%%d" %% i, x=a["x"], y=a["y"], z=[0.0]*len(a["x"]), h=a["h"]) for i, a in enumerate(arrays)]
-nn = LinkedListNNPS(dim=dim, particles=pas, radius_scale=rs, cache=%(cache)r)
+pas = [get_particle_array(name="a%%d" %% i, x=a["x"], y=a["y"], z=a.get("z", [0.0]*len(a["x"])), h=a["h"]) for i, a in enumerate(arrays)]
+cls = dict(ll=LinkedListNNPS, sh=SpatialHashNNPS, esh=ExtendedSpatialHashNNPS)[%(algo)r]
+nn = cls(dim=dim, particles=pas, radius_scale=rs, cache=%(cache)r, sort_gids=%(sort_gids)r)
 bad = None
 nb = UIntArray()
-for di, d in enumerate(arrays):
-    for si, s in enumerate(arrays):
-        for i in range(len(d["x"])):
+sys.stdout.flush()
+child = os.fork()        # a NULL context kills the process
+if child == 0:
+  for rnd in range(2):
+    for di, d in enumerate(arrays):
+      for si, s in enumerate(arrays):
+        for i in reversed(range(len(d["x"]))):
             nn.get_nearest_particles(si, di, i, nb)
-            got = sorted(int(v) for v in nb.get_npy_array())
+  os._exit(0)
+_, st = os.waitpid(child, 0)
+if os.WIFSIGNALED(st):
+    print("arrays:", arrays)
+    sys.exit(common.replay_exit("the neighbour queries kill the process with signal %%d" %% os.WTERMSIG(st)))
+for rnd in range(2):
+  for di, d in enumerate(arrays):
+    for si, s in enumerate(arrays):
+        for i in reversed(range(len(d["x"]))):
+            nn.get_nearest_particles(si, di, i, nb)
+            raw = [int(v) for v in nb.get_npy_array()]
+            got = sorted(raw)
             exp = []; edge = False
             for j in range(len(s["x"])):
-                d2 = (d["x"][i]-s["x"][j])**2 + (d["y"][i]-s["y"][j])**2
+                d2 = (d["x"][i]-s["x"][j])**2 + (d["y"][i]-s["y"][j])**2 + (d.get("z", [0.0]*99)[i]-s.get("z", [0.0]*99)[j])**2
                 r = rs*max(d["h"][i], s["h"][j])
                 if abs(d2 - r*r) <= 1e-12*r*r: edge = True
                 if d2 < r*r: exp.append(j)
             if not edge and got != exp:
-                bad = "dest a%%d[%%d] against source a%%d: got %%r, true neighbours %%r" %% (di, i, si, got, exp)
+                bad = "dest a%%d[%%d] against source a%%d: got %%r, true neighbours %%r" %% (di, i, si, raw, exp)
+            if %(sort_gids)r and raw != got:
+                bad = "dest a%%d[%%d] against source a%%d: neighbours %%r are not sorted" %% (di, i, si, raw)
 print("arrays:", arrays)
 sys.exit(common.replay_exit(bad))
 '''
 
 
+ALGO_NAMES = dict(ll="LinkedListNNPS", sh="SpatialHashNNPS",
+                  esh="ExtendedSpatialHashNNPS")
+
+
 def unit_linked_list(dim, layout, move=False, timeout_ms=20000,
-                     max_paths=3000, fixed_cell=True, deadline_s=200):
+                     max_paths=3000, fixed_cell=True, deadline_s=200,
+                     algo="ll", cache=False, sort_gids=False, extent=3):
     """layout: particles per array"""
     common.use_repo()
     stats = Stats()
-    out = dict(unit="LinkedListNNPS dim=%d arrays=%s%s%s" % (
+    out = dict(unit="%s%s%s dim=%d arrays=%s%s%s" % (
+        ALGO_NAMES[algo], " cache" if cache else "",
+        " sort_gids" if sort_gids else "",
         dim, layout, " move+update" if move else "",
         " max(h)=0.5" if fixed_cell else " symbolic cell size"),
         obligations=0,
@@ -76,9 +101,11 @@ def unit_linked_list(dim, layout, move=False, timeout_ms=20000,
             xs = [real("x%d_%d%s" % (a, i, suffix)) for i in range(n)]
             ys = [real("y%d_%d%s" % (a, i, suffix)) if dim > 1 else 0.0
                   for i in range(n)]
+            zs = [real("z%d_%d%s" % (a, i, suffix)) if dim > 2 else 0.0
+                  for i in range(n)]
             h = [real("h%d_%d" % (a, i)) for i in range(n)]
             hs += h
-            coords.append((xs, ys, h))
+            coords.append((xs, ys, h, zs))
         return coords, hs
 
     def run(c):
@@ -97,21 +124,32 @@ def unit_linked_list(dim, layout, move=False, timeout_ms=20000,
         c.assume_unchecked(to_real(cs) >= rv(0.3))
         # bounded extent: all coordinates within 3 cells of each other,
         # smoothing lengths within a factor 4
-        for (xs, ys, h) in coords:
-            for v in list(xs) + [y for y in ys if is_sym(y)]:
-                c.assume_unchecked(z3.And(v.t >= 0, v.t <= 3 * to_real(cs)))
+        for (xs, ys, h, zs) in coords:
+            for v in list(xs) + [y for y in list(ys) + list(zs)
+                                 if is_sym(y)]:
+                c.assume_unchecked(z3.And(v.t >= 0,
+                                          v.t <= extent * to_real(cs)))
         for h in hs:
             c.assume_unchecked(4 * h.t >= to_real(hmax))
         pas = []
-        for a, (xs, ys, h) in enumerate(coords):
+        for a, (xs, ys, h, zs) in enumerate(coords):
             n = len(xs)
             pas.append(NM.RecPA("a%d" % a, dict(
-                x=list(xs), y=list(ys), z=[0.0] * n, h=list(h), gid=[0] * n,
-                tag=[0] * n)))
-        nn = NM.linked_list(M, pas, dim, RS, cs)
+                x=list(xs), y=list(ys), z=list(zs), h=list(h),
+                gid=[NM.UINT_MAX if sort_gids else 0] * n, tag=[0] * n)))
+        if algo == "ll":
+            nn = NM.linked_list(M, pas, dim, RS, cs)
+            nn.sort_gids = sort_gids
+        elif algo == "sh":
+            nn = NM.spatial_hash(M, pas, dim, RS, cs, sort_gids=sort_gids)
+        else:
+            nn = NM.extended_spatial_hash(M, pas, dim, RS, cs,
+                                          sort_gids=sort_gids)
+        if cache:
+            NM.enable_cache(M, nn)
         nn.update()
         if move:
-            for a, (xs, ys, h) in enumerate(coords):
+            for a, (xs, ys, h, zs) in enumerate(coords):
                 for i in range(len(xs)):
                     nx = real("mx%d_%d" % (a, i))
                     c.assume_unchecked(z3.And(nx.t >= 0,
@@ -122,10 +160,25 @@ def unit_linked_list(dim, layout, move=False, timeout_ms=20000,
         results = []
         for di in range(len(pas)):
             for si in range(len(pas)):
-                for i in range(len(coords[di][0])):
-                    nb = NM.SymArray()
-                    nn.get_nearest_particles_no_cache(si, di, i, nb, False)
-                    results.append((di, si, i, [int(v) for v in nb.data]))
+                n_d = len(coords[di][0])
+                if not cache:
+                    for i in range(n_d):
+                        nb = NM.SymArray()
+                        nn.get_nearest_particles_no_cache(si, di, i, nb,
+                                                          False)
+                        results.append((di, si, i,
+                                        [int(v) for v in nb.data]))
+                    continue
+                # the neighbour cache (one thread): lists are appended to a
+                # shared buffer in the order of the first queries and read
+                # back as views; every list is read twice
+                # through the public entry point, which sets the context
+                for rnd_ in range(2):
+                    for i in reversed(range(n_d)):
+                        nb = NM.SymArray()
+                        nn.get_nearest_particles(si, di, i, nb)
+                        results.append((di, si, i,
+                                        [int(v) for v in nb.data]))
         return coords, results
 
     k = 0
@@ -142,7 +195,14 @@ def unit_linked_list(dim, layout, move=False, timeout_ms=20000,
             what = "out-of-bounds array access while binning/searching " \
                 "(%s)" % path.exc
             _cex(out, c, dim, layout, what, ncex, findings, coords=None,
-                 kind="oob")
+                 kind="oob", opts=(algo, cache, sort_gids))
+            continue
+        if isinstance(path.exc, AttributeError) and \
+                "'NoneType' object" in str(path.exc):
+            what = "a query dereferences the NULL search context (no " \
+                "set_context before it): %s" % path.exc
+            _cex(out, c, dim, layout, what, ncex, findings, coords=None,
+                 kind="null_context", opts=(algo, cache, sort_gids))
             continue
         if path.exc is not None and "solver said unknown" in str(path.exc):
             out["undecided"].append("path %d: %s" % (k, path.exc))
@@ -154,15 +214,19 @@ def unit_linked_list(dim, layout, move=False, timeout_ms=20000,
         coords, results = path.value
         claims = []
         for (di, si, i, got) in results:
-            xs, ys, hd = coords[di]
-            sx, sy, sh = coords[si]
+            xs, ys, hd, zs = coords[di]
+            sx, sy, sh, sz = coords[si]
+            if sort_gids and got != sorted(got):
+                claims.append(z3.BoolVal(False))
+                continue
             if len(got) != len(set(got)) or any(
                     j < 0 or j >= len(sx) for j in got):
                 claims.append(z3.BoolVal(False))
                 continue
             for j in range(len(sx)):
                 d2 = (to_real(xs[i]) - to_real(sx[j])) ** 2 + \
-                    (to_real(ys[i]) - to_real(sy[j])) ** 2
+                    (to_real(ys[i]) - to_real(sy[j])) ** 2 + \
+                    (to_real(zs[i]) - to_real(sz[j])) ** 2
                 hm = z3.If(hd[i].t >= sh[j].t, hd[i].t, sh[j].t)
                 near = d2 < (rv(RS) * hm) ** 2
                 edge = d2 == (rv(RS) * hm) ** 2
@@ -176,7 +240,7 @@ def unit_linked_list(dim, layout, move=False, timeout_ms=20000,
         elif r == "sat":
             _cex(out, c, dim, layout, "neighbour list differs from the true "
                  "neighbour set", ncex, findings, coords=coords, model=model,
-                 kind="set")
+                 kind="set", opts=(algo, cache, sort_gids))
         else:
             out["undecided"].append("path %d" % k)
     out["stats"] = stats.as_dict()
@@ -185,7 +249,7 @@ def unit_linked_list(dim, layout, move=False, timeout_ms=20000,
 
 
 def _cex(out, c, dim, layout, what, ncex, findings, coords=None, model=None,
-         kind="set"):
+         kind="set", opts=("ll", False, False)):
     if ncex[0] >= 6:
         return
     ncex[0] += 1
@@ -207,16 +271,20 @@ def _cex(out, c, dim, layout, what, ncex, findings, coords=None, model=None,
             x=[val("x%d_%d" % (a, i)) for i in range(n)],
             y=[float(model_value(model, z3.Real("y%d_%d" % (a, i))))
                if dim > 1 else 0.0 for i in range(n)],
+            z=[float(model_value(model, z3.Real("z%d_%d" % (a, i))))
+               if dim > 2 else 0.0 for i in range(n)],
             h=[float(model_value(model, z3.Real("h%d_%d" % (a, i))))
                for i in range(n)]))
     coincident = all(len(set(a["x"])) <= 1 and len(set(a["y"])) <= 1
                      for a in arrays) and \
         len(set(a["x"][0] for a in arrays if a["x"])) <= 1
-    p = common.write_replay(PID, "ll_d%d_%s_%d" % (
+    p = common.write_replay(PID, "%s%s%s_d%d_%s_%d" % (
+        opts[0], "c" if opts[1] else "", "s" if opts[2] else "",
         dim, "x".join(map(str, layout)), ncex[0]), REPLAY % dict(
-            dim=dim, arrays=arrays, rs=RS, cache=False))
+            dim=dim, arrays=arrays, rs=RS, cache=opts[1], algo=opts[0],
+            sort_gids=opts[2]))
     common.triage(PID, out, "%s: %s" % (out["unit"], what), p,
-                  dict(unit="LinkedListNNPS", kind=kind, dim=dim,
+                  dict(unit=ALGO_NAMES[opts[0]], kind=kind, dim=dim,
                        degenerate=coincident), findings, soft=True)
 
 
@@ -362,13 +430,38 @@ def main():
                       dict(dim=dim, layout=lay, move=mv,
                            deadline_s=200 if t == "quick" else 1400,
                            max_paths=3000 if t == "quick" else 20000)))
+    dl = 200 if t == "quick" else 1400
+    # neighbour cache + sort_gids (LinkedListNNPS), SpatialHashNNPS
+    extra = [dict(dim=1, layout=(2,), cache=True, sort_gids=True),
+             dict(dim=1, layout=(3,), cache=True, sort_gids=True),
+             dict(dim=2, layout=(2,), cache=True),
+             dict(dim=1, layout=(2,), algo="sh"),
+             dict(dim=1, layout=(1, 1), algo="sh", sort_gids=True),
+             dict(dim=2, layout=(2,), algo="sh"),
+             dict(dim=3, layout=(2,), algo="sh", extent=2),
+             dict(dim=1, layout=(2,), algo="esh"),
+             dict(dim=1, layout=(1, 1), algo="esh"),
+             dict(dim=2, layout=(2,), algo="esh")]
+    if t != "quick":
+        extra += [dict(dim=1, layout=(2, 1), cache=True, sort_gids=True),
+                  dict(dim=1, layout=(3,), algo="sh"),
+                  dict(dim=2, layout=(2,), algo="sh", cache=True,
+                       sort_gids=True),
+                  dict(dim=3, layout=(1, 1), algo="sh", extent=2)]
+    for kw in extra:
+        units.append(("vf.props.c01", "unit_linked_list",
+                      dict(deadline_s=dl, max_paths=3000 if t == "quick"
+                           else 20000, **kw)))
     units.append(("vf.props.c01", "unit_linked_list",
                   dict(dim=1, layout=(1,), fixed_cell=False)))
     if t != "quick":
         units.append(("vf.props.c01", "unit_linked_list",
                       dict(dim=1, layout=(2,), fixed_cell=False,
                            deadline_s=1400, max_paths=20000)))
-    rep.bounds = dict(algorithm="LinkedListNNPS only (cache off)",
+    rep.bounds = dict(algorithm="LinkedListNNPS (cache off; cache on and "
+                      "sort_gids in extra units), SpatialHashNNPS (dims "
+                      "1-3, n = 2), ExtendedSpatialHashNNPS (H = 3, exact "
+                      "mask; dims 1-2, n = 2)", extra_units=extra,
                       configurations=[dict(dim=d, particles_per_array=l,
                                            move_then_update=m)
                                       for d, l, m in cfgs],
@@ -383,10 +476,15 @@ def main():
         "reported)", "cyarray arrays and ParticleArray are models "
         "(vf/nnpsmodel.py)", "cell size as computed by "
         "CPUDomainManager._compute_cell_size_for_binning (radius_scale * "
-        "max h, >= 1e-6)", "sequential semantics; neighbour cache off"]
-    rep.outside = ["the other 11 neighbour algorithms beyond the index "
-                   "lemmas and the acceptance-predicate check", "n > 3, "
-                   "dim 3", "OpenMP filling of the cache, the cache itself",
+        "max h, >= 1e-6)", "sequential semantics (one thread fills the "
+        "neighbour cache)", "the C++ HashTable of spatial_hash.h is "
+        "modelled by its contract (a map from exact cell coordinates to the "
+        "indices in insertion order) and NNPS._sort_neighbors (std::sort) "
+        "by a model that sorts the addressed slice"]
+    rep.outside = ["the other 9 neighbour algorithms beyond the index "
+                   "lemmas and the acceptance-predicate check", "n > 3; "
+                   "dim 3 for LinkedListNNPS",
+                   "OpenMP filling of the cache",
                    "IEEE rounding of the cell index (lemma L1' of the "
                    "design is not built)", "z_order.h / spatial_hash.h "
                    "bit-vector lemmas (not built)"]
